@@ -27,6 +27,9 @@ def text_of(s):
         return str(bool(s["v"]))
     if t == "int":
         return str(int(s["v"]))
+    if t == "bigint":
+        # 10**exp has exp+1 digits; CPython refuses str() beyond 4300 digits (the model's py_str is then the empty text)
+        return "" if s["exp"] + 1 > 4300 else ("-" if s["neg"] else "") + "1" + "0" * s["exp"]
     if t == "float":
         return str(float(s["v"]))
     if t == "str":
@@ -34,9 +37,9 @@ def text_of(s):
     if t == "bytes":
         return str(s["v"].encode())
     if t == "list":
-        return str(list(range(s["n"])))
+        return str(list(s["items"]) if "items" in s else list(range(s["n"])))
     if t == "tuple":
-        return str(tuple(range(s["n"])))
+        return str(tuple(s["items"]) if "items" in s else tuple(range(s["n"])))
     if t == "dict":
         return str({i: i for i in range(s["n"])})
     return "<obj>"
@@ -54,13 +57,16 @@ def g_val(s):
     elif t == "int":
         n = int(s["v"])
         kind = f"(VInt {G.z(n) if abs(n) < 10**18 else ('(-0x%x)%%Z' % -n if n < 0 else '0x%x%%Z' % n)})"
+    elif t == "bigint":
+        n = 10 ** s["exp"]
+        kind = "(VInt (%s0x%x)%%Z)" % ("-" if s["neg"] else "", n)
     elif t == "float":
         v = float(s["v"])
         kind = f"(VFloat {G.b(v != 0.0)})"
     elif t == "bytes":
         kind = f"(VBytes {G.b(len(s['v']) > 0)})"
     elif t in ("list", "tuple"):
-        kind = f"(VSeq {G.b(s['n'] > 0)})"
+        kind = f"(VSeq {G.b((len(s['items']) if 'items' in s else s['n']) > 0)})"
     elif t == "dict":
         kind = f"(VDict {G.b(s['n'] > 0)})"
     # str(obj) of a plain object contains an address: never used by the model for a truthy non-str... except sqlstate
@@ -105,6 +111,14 @@ def gen_value(rng, for_sqlstate=False):
         return {"t": "float", "v": rng.choice(["nan", "0.0", "28.5", "401.0", "-0.0", "inf", "40001.0", "8.0"])}
     if r < 0.8:
         return NONE
+    if r < 0.84:
+        return {"t": "bigint", "exp": rng.choice([4298, 4299, 4300, 5000]), "neg": rng.random() < 0.3}
+    if r < 0.9:
+        # non-str values whose str() contains a SQLSTATE-looking token
+        return rng.choice([{"t": "bytes", "v": gen_text(rng).encode("ascii", "replace").decode()},
+                           {"t": "list", "items": [rng.choice([40001, 28000, 42000, 8001])]},
+                           {"t": "tuple", "items": [rng.choice([40001, 28000, 42000])]},
+                           {"t": "list", "items": [40001, 7]}])
     return rng.choice([{"t": "bytes", "v": ""}, {"t": "bytes", "v": "40001"}, {"t": "list", "n": 0}, {"t": "list", "n": 2},
                        {"t": "tuple", "n": 0}, {"t": "dict", "n": 0}, {"t": "dict", "n": 1}, {"t": "obj"}])
 
